@@ -58,12 +58,24 @@ static void sequence(long code, std::string& desc) {
     if (!rml::pool_destroy(pool)) vf_fail("pool_destroy failed");
     for (auto& r : raw.regions) if (r.second) vf_fail("pool_destroy did not return raw region %p", (void*)r.first);
 }
+// ---- two large blocks that may share one memory region: realloc of one must not disturb the other.  a is allocated into a fresh
+// region, b is chosen to (nearly) fill the rest of it for every 8-byte step of slack, then b is grown / shrunk by realloc.
+static void region_share(long c, ShadowHeap& h) {
+    static const size_t AS[3] = {900000, 1200000, 2000000}; size_t a = AS[c % 3]; c /= 3; size_t slack = (size_t)c * 8; size_t b = (4u << 20) - a - slack;
+    unsigned char* pa = (unsigned char*)scalable_malloc(a); unsigned char* pb = (unsigned char*)scalable_malloc(b); if (!pa || !pb) vf_fail("scalable_malloc failed"); h.add(pa, a, 16, "scalable_malloc"); h.add(pb, b, 16, "scalable_malloc");
+    for (size_t to : {(size_t)6 << 20, (size_t)1100000, (size_t)9 << 20}) { ShadowHeap::Blk blk = h.take(pb, "realloc"); unsigned char* q = (unsigned char*)scalable_realloc(pb, to); if (!q) vf_fail("scalable_realloc(%zu -> %zu) failed", blk.n, to);
+        if (!ShadowHeap::intact(q, blk.n, blk.pat, blk.n < to ? blk.n : to)) vf_fail("scalable_realloc(%zu -> %zu) lost the old contents", blk.n, to); h.add(q, to, 16, "scalable_realloc"); if (scalable_msize(q) < to) vf_fail("msize after realloc too small"); pb = q;
+        h.check_all("after realloc of the neighbouring large block"); if (scalable_msize(pa) < a) vf_fail("msize of the untouched block changed to %zu", scalable_msize(pa)); }
+    h.take(pa, "free"); scalable_free(pa); h.take(pb, "free"); scalable_free(pb);
+}
+static long NE = 3 * 2048;
 static void scenario(long c) {
     ShadowHeap h;
     if (c < NA) { for (size_t n = (size_t)c * 64; n < (size_t)(c + 1) * 64; n++) one_size(n, h); vf_outcome("sizes %ld..%ld", c * 64, c * 64 + 63); }
     else if (c < NA + NB) { size_t n = bsizes[c - NA]; one_size(n, h); vf_outcome("size %zu", n); }
     else if (c < NA + NB + NC) { long i = c - NA - NB; size_t a = aligns[i % aligns.size()], n = (size_t[]){1, 8, 63, 1000, 8129, 70000, 1u << 21}[i / aligns.size()]; one_align(a, n, h); vf_outcome("align %zu size %zu", a, n); }
-    else { std::string d; sequence(c - NA - NB - NC, d); vf_outcome("%s", d.c_str()); }
+    else if (c < NA + NB + NC + NE) { region_share(c - NA - NB - NC, h); vf_outcome("region share %ld", c - NA - NB - NC); }
+    else { std::string d; sequence(c - NA - NB - NC - NE, d); vf_outcome("%s", d.c_str()); }
     if (!h.live.empty()) vf_fail("harness error: live blocks left");
 }
 int main(int argc, char** argv) {
@@ -72,5 +84,5 @@ int main(int argc, char** argv) {
     for (int k = 0; k <= 30; k++) aligns.push_back((size_t)1 << k); for (size_t a : {0ul, 3ul, 24ul, 100ul}) aligns.push_back(a);
     NB = (long)bsizes.size(); NC = (long)aligns.size() * 7; depth = 4; for (int i = 1; i + 1 < argc; i++) if (!strcmp(argv[i], "-p") && !strncmp(argv[i + 1], "depth=", 6)) depth = atoi(argv[i + 1] + 6);
     ND = 1; for (int i = 0; i < depth; i++) ND *= 12;
-    return vf_main_cases(argc, argv, NA + NB + NC + ND, scenario);
+    return vf_main_cases(argc, argv, NA + NB + NC + NE + ND, scenario);
 }
